@@ -348,6 +348,9 @@ def noisy_bus_run(part, rng, campaign, rounds):
 
 
 def run_shard(campaign, shard, nshards, seed, tier):
+    if campaign == 'api':
+        import apiuse
+        return apiuse.run_api('C13', shard, nshards, seed, tier)
     part = Part()
     rng = random.Random('%s/%s/%s' % (seed, campaign, shard))
     quick = tier != 'thorough'
@@ -374,4 +377,6 @@ def run(ctx):
         run_sharded(ctx, 'C13', t, nshards=8)
     run_sharded(ctx, 'C13', 'duplex', nshards=16)
     run_sharded(ctx, 'C13', 'noisy_bus', nshards=4)
-    return RULE, ASSUME
+    run_sharded(ctx, 'C13', 'api', nshards=2)
+    import apiuse
+    return RULE + apiuse.rule_text('C13'), ASSUME
